@@ -2,7 +2,7 @@ import Model.Gencommon
 import Driver.Util
 /-! Line protocol for `Model/Gencommon` (stateful).  A case declares a small Go program
 (packages, the target file's imports, method-bearing types with embedded fields and methods) and
-then asks `find <pkg> <Type> <optbits>`, `promoted <pkg> <Type>` and `build`.
+then asks `find <pkg> <Type> <optbits>` (`findq`: same call, answer withheld), `promoted <pkg> <Type>` and `build`.
 
 Types are written in prefix form, one token each:
 `b:<name>` basic/universe · `n:<pkg>:<Name>` named · `g:<pkg>:<Name>:<k>` + k types: instantiated
@@ -151,6 +151,14 @@ def handle (st : St) (ws : List String) : St × String :=
       let ms := sortStr (r.2.methods.map methText)
       let act := sortStr (r.1.active.map (fun i => S i.importString))
       ({ st with ih := some r.1 }, " ;; ".intercalate ms ++ " ## " ++ ",".intercalate act)
+    | _, _ => (st, "bad-op")
+  | ["findq", p, n, bits] =>
+    -- same call as `find`, answer withheld (used before `build` to observe the compiler's verdict)
+    match p.toNat?, bits.toNat? with
+    | some p, some bits =>
+      let ih := st.ih.getD (initIH st)
+      let r := findInterface st.legacy ⟨bits % 2 = 1, bits / 2 % 2 = 1⟩ ih (buildTy st 12 p n)
+      ({ st with ih := some r.1 }, "ok")
     | _, _ => (st, "bad-op")
   | ["promoted", p, n] => match p.toNat? with
     | some p =>
